@@ -16,7 +16,7 @@ from vf.files import scratch_file
 ID = 'C03'
 LEVEL = 'exploration'
 RULE = ("Hypothesis draws a logical file (C01 generator; plus DAQmx and scaled files from the C11/C13 generators) and a "
-        "configuration {memmap_dir, raw_timestamps, path/stream}; every access path (eager [:], [...], .data, "
+        "configuration {memmap_dir, raw_timestamps, path / pathlib.Path / BytesIO / stream whose readinto() delivers 1-64 bytes per call}; every access path (eager [:], [...], .data, "
         "read_data(), iteration, [i] for every i, raw_data, read_data(scaled=False); lazy [:], [...], read_data(), "
         "iteration, [i], channel.data_chunks() and TdmsFile.data_chunks() concatenations with their offsets) is "
         "compared with the model. Non-trivial: some channel's data spreads over >=2 chunks or segments (>=4 access "
@@ -252,6 +252,21 @@ def check_file_chunks(rec, ex, tf_lazy, raw_ts):
                   compare_parts(ex.objects[p]['type'], ex.values(p), parts[p], 'collected file chunks %s' % p, raw_ts))
 
 
+class BlockStream(io.BytesIO):
+    """A seekable binary stream whose readinto() delivers at most `block` bytes per call, as the io contract allows
+    (raw streams, sockets, pipes, compressed files); read(n) is complete, so metadata parsing is unaffected."""
+
+    def __init__(self, data, block):
+        io.BytesIO.__init__(self, data)
+        self._block = block
+
+    def readinto(self, b):
+        view = memoryview(b).cast('B')          # any writable buffer: the library passes NumPy arrays
+        got = io.BytesIO.read(self, min(len(view), self._block))
+        view[:len(got)] = got
+        return len(got)
+
+
 def check(case, rec):
     from nptdms import TdmsFile
     if 'graph' in case:
@@ -269,6 +284,7 @@ def check(case, rec):
     rec.nontrivial(_nontrivial(ex))
     rec.label(*S.spec_classes(fs))
     rec.label('memmap' if case['memmap'] else 'in_memory', 'raw_ts' if raw_ts else 'datetime64',
+              'short_readinto_stream' if case.get('block') else
               ('pathlib.Path' if case['as_path'] == 'pathlib' else 'path') if case['as_path'] else 'stream')
     with scratch_file(data, as_path=case['as_path']) as (src, tmpdir):
         mm = tmpdir if case['memmap'] else None
@@ -277,6 +293,8 @@ def check(case, rec):
             if case['as_path'] == 'pathlib':
                 import pathlib
                 return pathlib.Path(src)            # documented: "a string or pathlib.Path, or an already opened file"
+            if case.get('block'):
+                return BlockStream(data, case['block'])
             return src if case['as_path'] else io.BytesIO(data)
         ok, tf_e = rec.guard('read', lambda: TdmsFile.read(source(), raw_timestamps=raw_ts, memmap_dir=mm))
         if not ok:
@@ -336,6 +354,8 @@ def check_daqmx(case, rec):
         mm = tmpdir if case['memmap'] else None
 
         def source():
+            if case.get('block'):
+                return BlockStream(data, case['block'])
             return src if case['as_path'] else io.BytesIO(data)
         ok, tf_e = rec.guard('read', lambda: TdmsFile.read(source(), memmap_dir=mm))
         if not ok:
@@ -611,7 +631,10 @@ def check_cut_with_index(case, rec):
 @st.composite
 def daqmx_cases(draw):
     from vf.daqmx import daqmx_file
-    return {'fs': draw(daqmx_file(max_len=4)), 'memmap': draw(st.integers(0, 3)) == 0, 'as_path': draw(st.integers(0, 3)) == 0}
+    case = {'fs': draw(daqmx_file(max_len=4)), 'memmap': draw(st.integers(0, 3)) == 0, 'as_path': draw(st.integers(0, 3)) == 0}
+    if not case['as_path'] and draw(st.integers(0, 3)) == 0:
+        case['block'] = draw(st.sampled_from([1, 2, 3, 5, 8, 13, 64]))      # stream delivering short readinto() blocks
+    return case
 
 
 @st.composite
@@ -619,8 +642,11 @@ def cases(draw, **kw):
     fs = draw(S.file_spec(**kw))
     if draw(st.integers(0, 3)) == 0:
         fs = draw(S.with_continuation(fs))      # raw-data-only segments repeating the last layout, either byte order
-    return {'fs': fs, 'memmap': draw(st.integers(0, 3)) == 0, 'raw_ts': draw(st.booleans()),
+    case = {'fs': fs, 'memmap': draw(st.integers(0, 3)) == 0, 'raw_ts': draw(st.booleans()),
             'as_path': draw(st.sampled_from([False, False, False, True, 'pathlib']))}
+    if not case['as_path'] and draw(st.integers(0, 3)) == 0:
+        case['block'] = draw(st.sampled_from([1, 2, 3, 5, 8, 13, 64]))      # stream delivering short readinto() blocks
+    return case
 
 
 def sensor_scaled_cases():
